@@ -21,11 +21,11 @@ Proof. exact SubbasSpec.label_first_outlet. Qed.
 Print Assumptions label_first_outlet.
 
 (* the stream-order and the minimum-area method produce seeds of that form *)
-Theorem streamorder_seeded : forall ds sq strord min_sto, topo ds sq ->
+Theorem streamorder_seeded : forall ds sq strord mask min_sto, topo ds sq ->
   let ms := if min_sto <? 0 then fold_right Z.max 0 strord + min_sto else min_sto in
-  let st := fold_left (sto_step ds strord ms) (rev sq) (repeat 0 (length ds), []) in
+  let st := fold_left (sto_step ds strord mask ms) (rev sq) (repeat 0 (length ds), []) in
   seeded (length ds) (fst st) (snd st) /\ (forall x, In x (snd st) -> In x sq) /\
-  subbasins_streamorder ds sq strord min_sto = (fillnodata_upstream ds sq (fst st) 0, snd st).
+  subbasins_streamorder ds sq strord mask min_sto = (fillnodata_upstream ds sq (fst st) 0, snd st).
 Proof. exact SubbasSpec.streamorder_seeded. Qed.
 Print Assumptions streamorder_seeded.
 Theorem area_seeded : forall ds sq main uparea amin, topo ds sq ->
@@ -35,12 +35,18 @@ Theorem area_seeded : forall ds sq main uparea amin, topo ds sq ->
 Proof. exact SubbasSpec.area_seeded. Qed.
 Print Assumptions area_seeded.
 
-(* stream-order sub-basins start where the order changes downstream, or at a pit *)
-Theorem sto_outlet_condition : forall ds strord ms l sb idxs x,
-  In x (snd (fold_left (sto_step ds strord ms) l (sb, idxs))) -> In x idxs \/
-  (In x l /\ ms <= nth x strord 0 /\ (nth x strord 0 <> nth (dsf ds x) strord 0 \/ dsf ds x = x)).
+(* stream-order sub-basins start where the order changes downstream, or at a pit, at cells where the optional mask holds
+   (mget mask x = true: no mask, or the mask holds at x) *)
+Theorem sto_outlet_condition : forall ds strord mask ms l sb idxs x,
+  In x (snd (fold_left (sto_step ds strord mask ms) l (sb, idxs))) -> In x idxs \/
+  (In x l /\ mget mask x = true /\ ms <= nth x strord 0 /\ (nth x strord 0 <> nth (dsf ds x) strord 0 \/ dsf ds x = x)).
 Proof. exact SubbasSpec.sto_outlet_condition. Qed.
 Print Assumptions sto_outlet_condition.
+(* mask: consider only True cells -- every outlet returned under a mask is a cell where the mask holds *)
+Theorem streamorder_outlets_masked : forall ds sq strord m min_sto x,
+  In x (snd (subbasins_streamorder ds sq strord (Some m) min_sto)) -> nth x m false = true.
+Proof. exact SubbasSpec.streamorder_outlets_masked. Qed.
+Print Assumptions streamorder_outlets_masked.
 
 (* minimum-area sub-basins that do not end at a pit drain more than the area threshold *)
 Theorem area_outlet_condition : forall ds main uparea amin l upa sb idxs x,
@@ -179,18 +185,19 @@ Print Assumptions pfaf_refines.
 
 (* non-vacuity *)
 Example sto_example : topo [0;0;1;1]%nat [0;1;2;3]%nat /\
-  subbasins_streamorder [0;0;1;1]%nat [0;1;2;3]%nat [2;2;1;1] 1 = ([3;3;2;1], [3;2;0]%nat).
-Proof. split; [apply check_topo_sound; vm_compute; reflexivity|vm_compute; reflexivity]. Qed.
+  subbasins_streamorder [0;0;1;1]%nat [0;1;2;3]%nat [2;2;1;1] None 1 = ([3;3;2;1], [3;2;0]%nat) /\
+  subbasins_streamorder [0;0;1;1]%nat [0;1;2;3]%nat [2;2;1;1] (Some [true;true;false;true]) 1 = ([2;2;2;1], [3;0]%nat).
+Proof. split; [apply check_topo_sound; vm_compute; reflexivity|vm_compute; split; reflexivity]. Qed.
 
 (* TIE BY TRANSLATION: basins.subbasins_area and basins.subbasins_streamorder regenerated from the source on every run
-   ARE the models above (the source appends the outlet and stores len(idxs), the model stores length + 1 and appends; the
-   `mask[idx0] is False` test of subbasins_streamorder never holds in interpreted mode) *)
+   ARE the models above (the source appends the outlet and stores len(idxs), the model stores length + 1 and appends;
+   subbasins_streamorder with its optional mask, for every mask) *)
 Theorem gen_subbasins_area_eq : forall ds sq main uparea amin, (forall i, In i sq -> valid ds i) ->
   gen_subbasins_area ds sq main uparea amin = subbasins_area ds sq main uparea amin.
 Proof. exact GenSubbasEq.gen_subbasins_area_eq. Qed.
 Print Assumptions gen_subbasins_area_eq.
 Theorem gen_subbasins_streamorder_eq : forall ds sq strord mask min_sto, (forall i, In i sq -> valid ds i) ->
-  gen_subbasins_streamorder ds sq strord mask min_sto = subbasins_streamorder ds sq strord min_sto.
+  gen_subbasins_streamorder ds sq strord mask min_sto = subbasins_streamorder ds sq strord mask min_sto.
 Proof. exact GenSubbasEq.gen_subbasins_streamorder_eq. Qed.
 Print Assumptions gen_subbasins_streamorder_eq.
 
